@@ -648,11 +648,12 @@ class Array(metaclass=MetaArray):
 
     def to_nplike(self):
         shape = self._shape
-        cshape = [shape[ii] for ii in self._order]
+        order = mk_order(self._order, shape)
+        cshape = [shape[ii] for ii in order]
         if hasattr(self._itemtype, "_dtype"):
             arr = self._buffer.to_nplike(
                 self._offset + self._data_offset, self._itemtype._dtype, cshape
-            ).transpose(self._order)
+            ).transpose(np.argsort(order))
             assert arr.strides == self._strides
             return arr
         else:
@@ -660,11 +661,12 @@ class Array(metaclass=MetaArray):
 
     def to_nparray(self):
         shape = self._shape
-        cshape = [shape[ii] for ii in self._order]
+        order = mk_order(self._order, shape)
+        cshape = [shape[ii] for ii in order]
         if hasattr(self._itemtype, "_dtype"):
             arr = self._buffer.to_nparray(
                 self._offset + self._data_offset, self._itemtype._dtype, cshape
-            ).transpose(self._order)
+            ).transpose(np.argsort(order))
             assert arr.strides == self._strides
             return arr
         else:
